@@ -62,7 +62,7 @@ def shards(tier, seed):
     out = []
     for i, (kind, kw) in enumerate(PLAN):
         if tier == "quick":
-            ncfg, ncases = (2, 40) if kind == "trace" else (3, 14) if kind == "image" else (1, 10)
+            ncfg, ncases = (2, 40) if kind == "trace" else (3, 14) if kind == "image" else (2, 8)
         else:
             ncfg, ncases = (6, 400) if kind == "trace" else (8, 120) if kind == "image" else (4, 60)
         out.append(dict(idx=i, tier=tier, seed=seed * 1000 + i, kind=kind, cfgkw=kw, ncfg=ncfg, ncases=ncases))
@@ -118,6 +118,12 @@ def diff_core(cfg, stim, ncycles=220):
     return len(ta)
 
 
+def draw_cfgs(strategy, n, seed):
+    """n distinct configurations; Hypothesis always starts with the minimal example (smallest of everything), which is dropped"""
+    xs = draw_examples(strategy, n + 1, seed)
+    return xs[1:] if len(xs) > n else xs
+
+
 def unknown_of(col, fs):
     return [f for f in fs if match_known(col.known, f) is None]
 
@@ -166,7 +172,7 @@ def run_trace_shard(sh, col):
     tier = sh["tier"]
     kind = sh["kind"]
     kw = dict(sh["cfgkw"])
-    cfgs = draw_examples(cm.model_cfg(**kw), sh["ncfg"], sh["seed"])
+    cfgs = draw_cfgs(cm.model_cfg(**kw), sh["ncfg"], sh["seed"])
     ndiff = 1 if tier == "quick" else 2
     for ci, cfg in enumerate(cfgs):
         plans = []
@@ -205,7 +211,7 @@ def run_core_shard(sh, col):
     from lib import corecase as cc
     tier = sh["tier"]
     kw = dict(sh["cfgkw"])
-    cfgs = draw_examples(cm.model_cfg(core=True, **kw), sh["ncfg"], sh["seed"])
+    cfgs = draw_cfgs(cm.model_cfg(core=True, **kw), sh["ncfg"], sh["seed"])
     for ci, cfg in enumerate(cfgs):
         ccfg = cm.core_cfg_of(cfg)
         state = dict(n=0)
